@@ -102,6 +102,15 @@ def run(tier, seed):
             pc = parse_schema(json.loads(text))
             b = io.BytesIO()
             fastavro.schemaless_writer(b, ps, v)
+            try:
+                # "defaults aside": the clause speaks about data that spell every field out
+                bs_ = io.BytesIO()
+                fastavro.schemaless_writer(bs_, ps, v, strict=True)
+                if bs_.getvalue() != b.getvalue():
+                    raise ValueError("defaults used")
+            except Exception:
+                run.tag("same-encoding:skipped-uses-defaults")
+                raise
             v1 = fastavro.schemaless_reader(io.BytesIO(b.getvalue()), ps)
             v2 = fastavro.schemaless_reader(io.BytesIO(b.getvalue()), pc)
             if canon(to_wire(v1)) != canon(to_wire(v2)):
